@@ -30,6 +30,24 @@ CHECKS['C01'] = ('simnet', 'exploration',
     'Thousands of generated schedules per run including delays above the poll interval, dropped publishes and kill/restart.',
     SIMNET_NOTE, '5 C01')
 
+CHECKS['C16'] = ('hypothesis', 'exploration',
+    'property-based testing (Hypothesis) against an independently written reference glob matcher; metrics collected with a real in-memory OpenTelemetry reader',
+    'Generated allow-lists (absent/empty/exact/wildcards, env var or YAML file) x generated counters/histograms/gauges and value sequences through the real '
+    'TelemetryRegistry + OTelLineageExporter, and through the real OpenTelemetryClient wiring with forced flush; every facet key handed to the lineage backend must '
+    'be allowed by the reference matcher, nothing at all with an empty/absent list, histogram shape/types.',
+    'OpenTelemetry SDK trusted; lineage backend is a capturing fake; raw-subject-data export switched off.', '5 C16')
+CHECKS['C09'] = ('hypothesis', 'exploration',
+    'property-based testing (Hypothesis): round-trip law plus differential against direct cv2 encode/decode',
+    'Generated frame sets through MQ.frames2topicmsgs -> bytes()/JSON as a socket would -> MQ.topicmsgs2frames, compared with the input: topics, data, image presence, '
+    'height/width/format, raw pixels identical, existing jpg passed byte for byte, fresh jpg equal to cv2 encode/decode of the pixels, decoded shape = declared shape.',
+    'cv2 codec deterministic; images up to 120 px per side (shape logic does not depend on size).', '5 C09')
+CHECKS['C10'] = ('hypothesis', 'exploration',
+    'model-based testing: exhaustive enumeration of all operation histories up to length 3/4 plus Hypothesis-generated longer histories, against a reference model with shadow pixel buffers',
+    'Every history of constructors/accessors/copies/pickles/pixel writes up to length 3 (quick: 243,000 histories) or 4 (thorough: 7.3M) from 9 start frames is executed against a model '
+    'that tracks every array ever seen; after each step: accessor result = reference conversion of the source pixels now, NEW-copy promises (no shared memory), '
+    'self-identity promises, read-only never becomes writable, cached jpg only on read-only pixels and consistent with them, nothing modified behind the model.',
+    'numpy shares_memory/flags trusted; GRAY luminance compared with +-1.', '5 C10')
+
 PENDING = {}
 
 
